@@ -31,7 +31,7 @@ checks="$prop"
 case "$id" in C10-4|C10-7|C10-8|C10-11) checks="C10 C14";; esac
 # the same source change as C01-7, filed under C08 by its author: replacing typeof of a constant by the literal type is
 # not one of the rewrites C08 lists, the change is a membership defect owned by C01 (see its meta.json)
-case "$id" in C08-7) checks="C08 C01";; esac
+case "$id" in C08-7|C08-3) checks="C08 C01";; esac
 verdict="missed"; seeds=""; line=""; by=""
 if [ "$built" = failed ]; then verdict="inconclusive"; line="harness does not build: $(tail -2 "$D/build.log" | tr '\n' ' ' | cut -c1-200)"; else
 for C in $checks; do
